@@ -43,6 +43,11 @@ func c06Fail(kind string) string {
 		return "throw \"t\""
 	case "framelimit":
 		return "var rr; rr = func(n) { return 1 + rr(n + 1) }; q := rr(0)"
+	case "framelimit-catch":
+		// the frame limit is reached in a function that catches the error itself, in every activation
+		// (no parameters, no catch variable: at most two stack slots per activation, so the 1024 frames are
+		// exhausted before the 2048 value-stack slots)
+		return "var rc; rc = func() { try { return rc() + 1 } catch { return 1000 } }; q := rc(); if q > 0 { throw \"done\" }"
 	case "wideexpr":
 		// one expression that needs more value-stack slots than there are, without any recursion
 		return "q := len([" + repeatList(2100, func(i int) string { return "a" }, ", ") + "])"
